@@ -13,6 +13,9 @@ import warnings
 
 warnings.filterwarnings('ignore')
 sys.dont_write_bytecode = True
+# the implementation is imported from the working tree under check (SAGEOPT_REPO, default /repo), never from an installed copy
+sys.path.insert(0, os.environ.get('SAGEOPT_REPO', '/repo'))
+
 import numpy as np  # noqa: E402
 import sageopt.coniclifts as cl  # noqa: E402
 from sageopt.coniclifts.base import ScalarVariable, Variable  # noqa: E402
